@@ -220,14 +220,22 @@ def rand_op(rng, table, sane, allow_node, id_pools=None):
     return [list(path), "time_begin", {"t": "int", "v": 1}]
 
 
+def assign(g, name, value, how):
+    """group.name = value, or group[name] = value (BaseParam.__setitem__)"""
+    if how and how[0] == "item":
+        g[name] = value
+    else:
+        setattr(g, name, value)
+
+
 def build_params(case):
     kw = {k: mk_value(s) for k, s in case.get("kw", {}).items()}
     p = DP.MPDrawParams(**kw)
-    for path, name, spec in case["ops"]:
+    for path, name, spec, *how in case["ops"]:
         g = p
         for c in path:
             g = getattr(g, c)
-        setattr(g, name, mk_value(spec))
+        assign(g, name, mk_value(spec), how)
     return p
 
 
@@ -283,13 +291,13 @@ def run_param_case(case):
     for k, v in kw.items():
         if not same(getattr(p, k), v):
             return (f"param:construct:{k} lost", f"MPDrawParams({k}={v!r}) holds {getattr(p, k)!r}"), None
-    for path, name, spec in case["ops"]:
+    for path, name, spec, *how in case["ops"]:
         g = p
         for c in path:
             g = getattr(g, c)
         value = mk_value(spec)
         before = snap(p)
-        setattr(g, name, value)
+        assign(g, name, value, how)
         r = check_assignment(before, p, path, name, value)
         if r:
             cls = type(g).__name__
@@ -303,7 +311,7 @@ def coq_valspec(spec):
 
 
 def coq_ops(ops):
-    return qlist([f"(mkOp {qlist([qstr(c) for c in path])} {qstr(name)} {coq_valspec(spec)})" for path, name, spec in ops])
+    return qlist([f"(mkOp {qlist([qstr(c) for c in path])} {qstr(name)} {coq_valspec(spec)})" for path, name, spec, *_ in ops])
 
 
 def coq_kw(kw):
@@ -410,7 +418,13 @@ def gen_render_case(rng, exact=None):
                             (["dynamic_obstacle"], "draw_initial_state"), (["dynamic_obstacle", "state"], "draw_arrow"),
                             (["dynamic_obstacle"], "draw_direction"), (["dynamic_obstacle", "history"], "draw_history"),
                             (["dynamic_obstacle", "occupancy"], "draw_occupancies"),
-                            (["phantom_obstacle", "occupancy"], "draw_occupancies")):
+                            (["phantom_obstacle", "occupancy"], "draw_occupancies"),
+                            (["lanelet_network", "traffic_light"], "show_label"),
+                            (["lanelet_network", "traffic_sign"], "draw_traffic_signs"),
+                            (["lanelet_network", "traffic_sign"], "show_label"),
+                            (["lanelet_network", "intersection"], "draw_intersections"),
+                            (["lanelet_network", "intersection"], "show_label"),
+                            (["lanelet_network", "lanelet"], "draw_border_vertices")):
                 if rng.random() < 0.6:
                     ops.append([path, k, {"t": "bool", "v": True}])
             if rng.random() < 0.4:
@@ -678,6 +692,7 @@ def gen_param_case(rng):
     if rng.random() < 0.35:
         o = rand_op(rng, table, False, True)
         ops.append(o)
+    ops = [o + ["item"] if rng.random() < 0.25 else o for o in ops]
     return {"k": "param", "kw": kw, "ops": ops}
 
 
@@ -742,7 +757,7 @@ def run(ctx):
     ctx.build_props()
     if ctx.tier == "thorough":
         ctx.coqchk()
-    n_r, n_p = ctx.n(260, 4000), ctx.n(70, 1200)
+    n_r, n_p = ctx.n(260, 3000), ctx.n(70, 400)
     pterms, pcases, sterms, scases = [], [], [], []
     stats = {"total_ok": 0}
 
